@@ -270,8 +270,25 @@ func ReadMesh(in io.Reader) ([]ObjMesh, []string, error) {
 			}
 
 			if !workingGeom.empty() {
+				// Close out the material range the finished group was filling
+				var activeMat *modeling.Material
+				if len(workingGeom.meshMats) > 0 {
+					last := len(workingGeom.meshMats) - 1
+					workingGeom.meshMats[last].PrimitiveCount = trisSenseLastMat
+					activeMat = workingGeom.meshMats[last].Material
+				}
+				trisSenseLastMat = 0
+
 				geoms = append(geoms, workingGeom.toMesh())
 				workingGeom = newObjMeshReading()
+
+				// The material in use carries over into the next group
+				if activeMat != nil {
+					workingGeom.meshMats = append(workingGeom.meshMats, modeling.MeshMaterial{
+						PrimitiveCount: 0,
+						Material:       activeMat,
+					})
+				}
 			}
 			workingGeom.name = groupName
 
